@@ -1,7 +1,11 @@
-(* C11 - Mate announcements (model-level part: what `score mate N` means).
-   Truth of the announcements against the rules is decided by the rules-level AND/OR solver
+(* C11 - Mate announcements.  Proved here: what `score mate N` means; and, at the iterations where the search is
+   exact (1..3, uninterrupted; C12), the first sentence of the property: a mate in one is played (and announced as
+   mate 1), and a move that lets the opponent mate at once is not played when it can be avoided.
+   Truth of the announcements at deeper iterations (null move active) is decided by the rules-level AND/OR solver
    (Spec.mate_in / mated_in) on searches of the real engine. *)
-From Walleye Require Import Model.Search Proofs.MateText.
+From Coq Require Import Permutation.
+From Walleye Require Import Model.Search Spec.Minimax Spec.Abs Proofs.MateText Proofs.DrawTableProofs Proofs.TableRestored Proofs.RootProofs
+  Proofs.CheckProofs Proofs.GenerateAbs Proofs.LegalMoves Proofs.PVSRoot Proofs.MateInOne Proofs.PositionGo.
 Open Scope Z_scope.
 
 (* N is never 0 for any value a completed root evaluation can take, and has the sign of the score *)
@@ -24,7 +28,58 @@ Proof.
   intros e H. destruct (mate_number_cases e) as [[A E]|[(A & B & E)|(A & B & E)]]; try exact E; lia.
 Qed.
 
+(* "mated" in the model's terms (no generated move, in check) is the rules' checkmate, on every well-formed board *)
+Theorem C11_mated_is_checkmate : forall zt m, pos_ok1 m -> (mated zt m <-> is_checkmate (abs m) = true).
+Proof.
+  intros zt m PO. destruct PO as [P E]. assert (PO : pos_ok1 m) by (split; assumption). destruct P as (CO & KO & _).
+  unfold mated, is_checkmate. rewrite (no_moves_iff zt m PO), (is_check_correct m (to_move m) CO KO).
+  change (pos_pl (abs m)) with (abs_placement (board m)). change (pos_stm (abs m)) with (to_move m).
+  destruct (legal_moves (abs m)); [tauto|]. split; [intros [X _]; discriminate X|discriminate].
+Qed.
+
+(* a mate in one is played: in an uninterrupted iteration of depth 1..3 over the generated moves (in any order, with
+   any ranking), if some move mates (and the mated position has not already occurred twice - it cannot have occurred
+   at all in a legal game), the iteration ends by reporting MATE_SCORE - 1, which is printed `score mate 1`, and by
+   sending a move after which the opponent is mated *)
+Theorem C11_mate_in_one_is_played : forall zt osort,
+  (forall i l, Permutation l (osort i l)) ->
+  forall fuel F first t d b ms0 ms ws r o r2 m1,
+  1 <= d <= 3 -> 1 + Z.of_nat F <= 100 -> dt_nonneg t ->
+  Forall2 same_move ms0 (generate_moves zt b AllMoves) -> Permutation ms0 ms ->
+  Forall2 (fun m x => negamax zt F m (d - 1) 1 t = Some x) (generate_moves zt b AllMoves) ws ->
+  In m1 (generate_moves zt b AllMoves) -> mated zt m1 -> is_threefold_repetition t m1 = false ->
+  dt_equiv (table (r_s r)) t ->
+  root_moves zt osort None fuel first ms d NEG_INF r = Ok (o, r2) ->
+  exists r' mov line evs,
+    o = Some r' /\ r_events r' = Info d (MATE_SCORE - 1) line :: Send mov :: evs /\ r_best r' = Some mov /\
+    In mov ms /\ mated zt mov /\ mate_number (MATE_SCORE - 1) = Some 1.
+Proof.
+  intros zt osort P fuel F first t d b ms0 ms ws r o r2 m1 Hd HF NN SM Pm HFv Hm MT NR E H.
+  destruct (mate_in_one_is_played zt osort P fuel F first t d b ms0 ms ws r o r2 m1 Hd HF NN SM Pm HFv Hm MT NR E H)
+    as (r' & mov & line & evs & A1 & A2 & A3 & A4 & A5).
+  exists r', mov, line, evs. split; [exact A1|]. split; [exact A2|]. split; [exact A3|]. split; [exact A4|]. split; [exact A5|reflexivity].
+Qed.
+
+(* not walking into a mate in one: in an uninterrupted iteration of depth 2 or 3, if some move does not let the
+   opponent mate at once, the move sent does not either *)
+Theorem C11_avoidable_mate_is_avoided : forall zt osort,
+  (forall i l, Permutation l (osort i l)) ->
+  forall fuel F first t d b ms0 ms ws r o r2 m1,
+  2 <= d <= 3 -> 1 + Z.of_nat F <= 100 -> dt_nonneg t ->
+  Forall2 same_move ms0 (generate_moves zt b AllMoves) -> Permutation ms0 ms ->
+  Forall2 (fun m x => negamax zt F m (d - 1) 1 t = Some x) (generate_moves zt b AllMoves) ws ->
+  In m1 (generate_moves zt b AllMoves) -> ~ (is_threefold_repetition t m1 = false /\ allows_mate zt t m1) ->
+  dt_equiv (table (r_s r)) t ->
+  root_moves zt osort None fuel first ms d NEG_INF r = Ok (o, r2) ->
+  exists r' mov line evs e,
+    o = Some r' /\ r_events r' = Info d e line :: Send mov :: evs /\ r_best r' = Some mov /\ In mov ms /\
+    ~ (is_threefold_repetition t mov = false /\ allows_mate zt t mov).
+Proof. exact avoidable_mate_is_avoided. Qed.
+
 Print Assumptions C11_mate_number_nonzero.
+Print Assumptions C11_mated_is_checkmate.
+Print Assumptions C11_mate_in_one_is_played.
+Print Assumptions C11_avoidable_mate_is_avoided.
 Print Assumptions C11_mate_number_of_ply_win.
 Print Assumptions C11_mate_number_of_ply_loss.
 Print Assumptions C11_static_value_is_not_a_mate.
